@@ -107,6 +107,8 @@ def _configured_geometry_oracle(c):
         return []
     if "d_real" in r and r["d_real"] != r["d_ref"]:
         return [Failure("oracle", PROP, f"data cache (hits, accesses) {r['d_real']}; a reference cache of the configured geometry fed the same addresses gives {r['d_ref']} ({r['mode']})", "sim:dcache-counters-vs-configured")]
+    if r.get("d_reported") is not None and r["d_reported"] != (str(r["d_ref"][0]), str(r["d_ref"][1])):
+        return [Failure("oracle", PROP, f"the statistics getter reports (hits, accesses) {r['d_reported']}, the reference counted {r['d_ref']} ({r['mode']})", "sim:reported-counters")]
     if r["cycles"] != r["cycles_ref"]:
         return [Failure("oracle", PROP, f"{r['cycles']} cycles for {r['steps']} steps; steps + penalty x reference misses = {r['cycles_ref']} ({r['mode']})", "sim:penalty-vs-configured")]
     return []
